@@ -32,6 +32,7 @@ func c04(c *Ctx) {
 	sLockDiscipline(c, "R10/S-LOCK", "raftState", "LogCache")
 	coreCommitBundle(c, "R11", "S-MATCH")
 	c06R4(c, "R11/C06.R4")
+	sHeartbeatFastPath(c, "R12/S-FASTPATH")
 }
 
 // prevCheckTracks: tracks of the previous-entry check in appendEntries.
